@@ -27,7 +27,8 @@ class Prop:
     pid = 'C16'
     props_file = 'Props/C16.v'
     required_theorems = ['negotiate_mirror', 'family_in_force_iff_both', 'flags_in_force_iff_both', 'graceful_restart_mirror',
-                         'send_max_without_addpath_tx_refuted', 'llgr_mirror_refuted']
+                         'send_max_iff_addpath_tx', 'llgr_mirror', 'contains_eq_bit_prefix', 'contains_beyond_width',
+                         'send_max_any_filter_refuted', 'llgr_all_entries_refuted']
     correspondence_name = ('Model/Negotiate.v vs packet/src/bgp.rs IpNet::contains, PeerCodec::negotiate (harness/hx-neg) and '
                            'daemon fsm.rs effective send-max, event/mod.rs negotiate_gr/negotiate_llgr (harness/daemon/event_hx.rs verif_neg_cases)')
     rule = ('cases = (prefix, address) pairs around every mask boundary, IPv4 and IPv6, canonical and with host bits set, valid and oversized masks; '
@@ -218,9 +219,12 @@ class Prop:
             if fl != want: return 'graceful restart in force for %s, both advertised %s' % (sorted(fl), sorted(want))
         sl = set(f for f, _ in ll[0]) if ll else set(); sr = set(f for f, _ in lr[0]) if lr else set()
         if sl != sr: return 'LLGR families differ between the two ends: %s vs %s' % (sorted(sl), sorted(sr))
+        cfg = dict(c['smax'])
         for f, mx, tx in em:
             if mx > 1 and not tx:
                 return 'family %d: more than one path will be sent (max %d) although add-path send is not in force' % (f, mx)
+            if tx and mx != cfg.get(f, 1):
+                return 'family %d: add-path send is in force but the configured send-max %d is not used (max %d)' % (f, cfg.get(f, 1), mx)
         return None
 
     def in_known_class(self, kf, c, obs, why):
